@@ -145,6 +145,7 @@ def make_session(fp, bps, ops, target="fd", compress="n", end_flush=True, destro
     toks.append("X:%s:%s" % (target, compress))
     ref = RefExporter(fp, bps)
     ndefined = len(bps)
+    defined = list(bps)
     exp = []
     def ps(b):
         d = {"max": 10000, "odh": 3}; d.update(b)
@@ -180,7 +181,13 @@ def make_session(fp, bps, ops, target="fd", compress="n", end_flush=True, destro
             exp.append(("lit", "ok")); ab_ok = False
         elif k == "AB":
             toks.append(G.bp_token(op[1])); toks.append("AB:%d" % ndefined); ndefined += 1
+            defined.append(op[1])
             exp.append(("lit", "i%d" % ref.add_bp(op[1]))); ab.append("P:" + ps(op[1]))
+        elif k == "ABR":
+            # the caller's parameter-set object #op[1] is handed to add_block_parameters once more (it is the caller's: adding it
+            # must not have changed it)
+            toks.append("AB:%d" % op[1])
+            exp.append(("lit", "i%d" % ref.add_bp(defined[op[1]]))); ab.append("P:" + ps(defined[op[1]]))
     if end_flush:
         toks.append("W"); exp.append(("ret", ref.write_block())); ab.append("W")
     if destroy:
